@@ -224,7 +224,9 @@ def family_space(tier, seed, include, base_kw, methods=('exhaustive_search', 'gr
 
 PRIORS = [{'kw': {'n_designs': 2}, 'op': 'exhaustive_search'},
           {'kw': {'n_geos_max': 2}, 'op': 'geo_assignments'},
-          {'kw': {'treatment_share_range': [0.05, 0.35], 'n_designs': 2}, 'op': 'greedy_search'}]
+          {'kw': {'treatment_share_range': [0.05, 0.35], 'n_designs': 2}, 'op': 'greedy_search'},
+          {'kw': {'n_geos_max': 2}, 'op': 'geo_assignments', 'interleave': True},
+          {'kw': {}, 'op': 'geo_assignments', 'interleave': True}]
 
 
 def reuse_space(p, include, base_kw, methods=('exhaustive_search', 'greedy_search'), d=1, priors=PRIORS, k_values=()):
